@@ -124,6 +124,17 @@ func (c14) Gen(rng *simrt.Rand, seed uint64, tier string) *Case {
 		specs = append(specs, a)
 		sel = append(sel, a.sql())
 	}
+	// changed_cols('c_', ignoreNull, v, w): multi-column fan-out (c_v / c_w appear when changed)
+	ccIgn := rng.Bool(0.5)
+	hasCC := rng.Bool(0.3)
+	if hasCC {
+		over := ""
+		if part {
+			over = " OVER (PARTITION BY p)"
+		}
+		sel = append(sel, fmt.Sprintf("changed_cols('c_', %v, v, w)%s", ccIgn, over))
+	}
+	c.X["cc"], c.X["cc_ign"] = hasCC, ccIgn
 	where := ""
 	whereKind := ""
 	switch rng.Intn(5) {
@@ -482,7 +493,9 @@ func (c14) Run(e *Env) {
 			states[i] = &refState{}
 		}
 		whereSt := &refState{}
+		ccPrev := map[string]any{}
 		for _, row := range perPartRows[p] {
+			ccChanged := map[string]bool{}
 			id := rowID(row)
 			v := row["v"]
 			counts := true // does the row count for the analytic state?
@@ -516,6 +529,21 @@ func (c14) Run(e *Env) {
 					exp[a.Alias] = out
 				}
 			}
+			if counts && e.C.xBool("cc") {
+				ign := e.C.xBool("cc_ign")
+				for _, col := range []string{"v", "w"} {
+					val := row[col]
+					if ign && val == nil {
+						continue
+					}
+					prev, had := ccPrev[col]
+					if !had || !refEqual(prev, val) {
+						exp["c_"+col] = val
+						ccChanged[col] = true
+					}
+					ccPrev[col] = val
+				}
+			}
 			for path, got := range map[string]map[string]any{"emit": emitOut[id], "emitsync": syncOut[id]} {
 				e.Oblig(1)
 				has := got != nil
@@ -546,7 +574,18 @@ func (c14) Run(e *Env) {
 						e.Violate("C14/value", path+"/"+a.Fn, "partition %s row %s (v=%s): %s = %s, the definition over the partition's earlier rows gives %s", p, id, canon(v), a.sql(), canon(gv), canon(want))
 					}
 				}
+				if e.C.xBool("cc") {
+					for _, col := range []string{"v", "w"} {
+						gv, present := got["c_"+col]
+						if ccChanged[col] != present {
+							e.Violate("C14/value", path+"/changed_cols", "partition %s row %s (%s=%s): column c_%s present=%v, expected changed=%v", p, id, col, canon(row[col]), col, present, ccChanged[col])
+						} else if present && !refEqual(gv, exp["c_"+col]) {
+							e.Violate("C14/value", path+"/changed_cols", "partition %s row %s: c_%s = %s, expected %s", p, id, col, canon(gv), canon(exp["c_"+col]))
+						}
+					}
+				}
 			}
+			_ = ccChanged
 			// both paths must agree with each other as well
 			if a, b := emitOut[id], syncOut[id]; a != nil && b != nil && !deepEqual(a, b) {
 				e.Violate("C14/sync-async-disagree", "", "row %s: Emit path %s, EmitSync path %s", id, canon(a), canon(b))
